@@ -12,7 +12,7 @@ CASES = {'quick': 12000, 'thorough': 300000}
 PARALLEL = True
 PROOF_TIMEOUT = 1500
 RULE = ('random action programs: include tree <= 6 nodes, <= 12 actions incl. re-entrantly declared ones (depth <= 2), '
-        '<= 4 discriminators + None + Deferred, phases from {-30,-20,-10,0,5} (+ rarely order=None), declared either '
+        '<= 4 discriminators (truthy tuples or the falsy hashables (), frozenset(), 0, \'\') + None + Deferred, phases from {-30,-20,-10,0,5} (+ rarely order=None), declared either '
         'directly on ActionState or through real nested Configurator.include configurators, executed with '
         'execute_actions()/commit(); plus resolveConflicts() driven directly on a fresh ConflictResolverState; '
         'non-trivial = at least two actions share a non-None discriminator (so the conflict machinery decides '
@@ -145,6 +145,8 @@ def facts(src):
                        'ainfos.sort(key=bypath)', 'ainfo, rest = (ainfos[0], ainfos[1:])',
                        'for i, action in sorted(output, key=operator.itemgetter(0)):',
                        'prev_ainfo = state.resolved_ainfos.get(discriminator)',
+                       'if discriminator is None:\n    output.append(ainfo)\n    continue',
+                       "discriminator = undefer(action['discriminator'])",
                        'actions = state.remaining_actions'):
             if needle not in txt:
                 problems.append('resolveConflicts: expected statement not found: %r' % needle)
@@ -311,7 +313,15 @@ def gen_case(rng, small=False):
         acts.append(mk(0, -30))
     if rng.random() < 0.03:
         acts = []
-    return {'mode': mode, 'nodes': nodes, 'actions': acts}
+    case = {'mode': mode, 'nodes': nodes, 'actions': acts}
+    if rng.random() < 0.3:
+        kinds_ = ['tuple', 'frozenset'] if mode == 'include' else ['tuple', 'frozenset', 'zero', 'empty']
+        rng.shuffle(kinds_)
+        ds = list(range(1, ndisc + 1))
+        rng.shuffle(ds)
+        n = rng.choice([1, 1, 2, ndisc])
+        case['falsy'] = sorted([d, k] for d, k in zip(ds[:n], kinds_))
+    return case
 
 
 def generate(rng, tier, n):
@@ -346,6 +356,16 @@ SEEDS = [
 ]
 
 
+SEEDS += [
+    # falsy (non-None) discriminators are discriminators: same-level clash, nested override, Deferred resolving to one
+    {'mode': 'direct', 'nodes': [], 'actions': [A(0, 1, 0, 0), A(1, 1, 0, 0)], 'falsy': [[1, 'tuple']]},
+    {'mode': 'direct', 'nodes': [], 'actions': [A(0, 1, 0, 0), A(1, 1, 0, 0)], 'falsy': [[1, 'zero']]},
+    {'mode': 'include', 'nodes': [[0, 's1']], 'actions': [A(0, 1, 1, 0), A(1, 1, 0, 0)], 'falsy': [[1, 'frozenset']]},
+    {'mode': 'direct', 'nodes': [[0, 'a']], 'actions': [A(0, 1, 1, 0, kind=1), A(1, 1, 0, 0, kind=1)], 'falsy': [[1, 'empty']]},
+    {'mode': 'include', 'nodes': [], 'actions': [A(0, 1, 0, 5, kind=1), A(1, 1, 0, 5)], 'falsy': [[1, 'tuple']]},
+]
+
+
 def _walk(acts):
     for a in acts:
         yield a
@@ -375,6 +395,12 @@ def valid(case):
                 return False
             if not isinstance(a['id'], int) or not 0 <= a['id'] < 1000:
                 return False
+        fz = case.get('falsy', [])
+        ok_kinds = ('tuple', 'frozenset') if case['mode'] == 'include' else tuple(FALSY)
+        if len({d for d, _ in fz}) != len(fz) or len({k for _, k in fz}) != len(fz):
+            return False
+        if not all(isinstance(d, int) and 1 <= d <= 9 and k in ok_kinds for d, k in fz):
+            return False
         return len(set(ids)) == len(ids) and len(ids) <= 30
     except Exception:
         return False
@@ -403,6 +429,9 @@ def shrinks(case):
     n = len(case['nodes'])
     if n and n not in used:
         yield dict(case, nodes=case['nodes'][:-1])
+    fz = case.get('falsy', [])
+    for i in range(len(fz)):
+        yield dict(case, falsy=fz[:i] + fz[i + 1:])
     if case['mode'] == 'include':
         yield dict(case, mode='direct')
 
@@ -453,9 +482,34 @@ def setup(tier):
 LATE_RE = re.compile(r'Actions were added to order=(-?\d+) after execution had moved on to order=(-?\d+)\.')
 
 
-def _disc_obj(a, log):
+FALSY = {'tuple': (), 'frozenset': frozenset(), 'zero': 0, 'empty': ''}
+
+
+def _falsy(case):
+    return {d: k for d, k in case.get('falsy', [])}
+
+
+def _disc_val(case, dv):
+    """the Python value standing for abstract discriminator dv: a truthy tuple, or one of the falsy
+    hashable values when the case says so (they must behave exactly like any other non-None value)."""
+    if dv is None:
+        return None
+    fz = _falsy(case)
+    return FALSY[fz[dv]] if dv in fz else ('d', dv)
+
+
+def _disc_num(case):
+    rev = {}
+    for a in _walk(case['actions']):
+        dv = a['disc'][1]
+        if dv is not None:
+            rev[_disc_val(case, dv)] = dv
+    return rev
+
+
+def _disc_obj(case, a, log):
     k, dv = a['disc']
-    val = None if dv is None else ('d', dv)
+    val = _disc_val(case, dv)
     if k == 0:
         return val
     i = a['id']
@@ -472,12 +526,12 @@ def _info_id(info):
     return int(m.group(1)) if m else s
 
 
-def _outcome(fn, log):
+def _outcome(fn, log, rev=None):
     try:
         fn()
         return [0]
     except _impl['Conflict'] as e:
-        return [1, [[k[1] if isinstance(k, tuple) else repr(k), [_info_id(x) for x in v]] for k, v in e._conflicts.items()]]
+        return [1, [[(rev or {}).get(k, repr(k)), [_info_id(x) for x in v]] for k, v in e._conflicts.items()]]
     except _impl['ExecError'] as e:
         return ['EXC', 'ConfigurationExecutionError', type(e.evalue).__name__ if hasattr(e, 'evalue') else '']
     except _impl['Error'] as e:
@@ -501,10 +555,10 @@ def _run_direct(case):
             log.append([0, a['id']])
             for b in a['adds']:
                 declare(b)
-        state.action(_disc_obj(a, log), call, order=a['order'], includepath=paths[a['node']], info='a%d' % a['id'])
+        state.action(_disc_obj(case, a, log), call, order=a['order'], includepath=paths[a['node']], info='a%d' % a['id'])
     for a in case['actions']:
         declare(a)
-    out = _outcome(state.execute_actions, log)
+    out = _outcome(state.execute_actions, log, _disc_num(case))
     return [out, log]
 
 
@@ -534,10 +588,10 @@ def _run_include(case):
                 declare(b)
         cfg = cfgs[a['node']]
         cfg.info = 'a%d' % a['id']
-        cfg.action(_disc_obj(a, log), call, order=a['order'])
+        cfg.action(_disc_obj(case, a, log), call, order=a['order'])
     for a in case['actions']:
         declare(a)
-    out = _outcome(config.commit, log)
+    out = _outcome(config.commit, log, _disc_num(case))
     return [out, log]
 
 
@@ -548,14 +602,14 @@ def _run_resolve(case):
     log = []
     dicts = []
     for a in case['actions']:
-        dicts.append(dict(discriminator=_disc_obj(a, log), callable=None, args=(), kw={}, order=a['order'],
+        dicts.append(dict(discriminator=_disc_obj(case, a, log), callable=None, args=(), kw={}, order=a['order'],
                           includepath=paths[a['node']], info='a%d' % a['id'], introspectables=(), aid=a['id']))
     got = []
 
     def go():
         for act in _impl['resolveConflicts'](dicts, state=st):
             got.append(act['aid'])
-    out = _outcome(go, log)
+    out = _outcome(go, log, _disc_num(case))
     return [out, got, [x['aid'] for x in st.remaining_actions],
             [] if st.min_order is None else [st.min_order], st.start]
 
@@ -645,6 +699,14 @@ def kinds(case, obs):
         k.append('multi-phase')
     if any(a['order'] is None for a in acts):
         k.append('order-none')
+    fz = _falsy(case)
+    if any(a['disc'][1] in fz for a in acts):
+        k.append('falsy-discriminator')
+        if any(a['disc'][1] in fz and a['disc'][0] == 1 for a in acts):
+            k.append('falsy-discriminator-deferred')
+        ds = [a['disc'][1] for a in acts if a['disc'][1] in fz]
+        if len(ds) != len(set(ds)):
+            k.append('falsy-discriminator-shared')
     if out and out[0] == 1:
         k.append('conflict-after-some-ran' if runs else 'conflict-before-any-ran')
         k.append('conflict-%d-discs' % min(len(out[1]), 3))
